@@ -8,6 +8,7 @@ mod client;
 mod gen_chains;
 mod crash;
 mod dump;
+mod frames;
 mod genresp;
 mod owned;
 mod parse;
@@ -31,6 +32,7 @@ fn main() {
         "parse" => parse::main(&args[2..]),
         "owned" => owned::main(&args[2..]),
         "chains" => chains::main(&args[2..]),
+        "frames" => frames::main(&args[2..]),
         "builder" => builder::main(&args[2..]),
         "bodystruct" => bodystruct::main(&args[2..]),
         c => {
